@@ -211,7 +211,33 @@ fn gen_ops(rng: &mut Rng, maxn: usize) -> (Vec<Op>, String) {
         for (a, b) in es {
             ops.push(Op::Edge { k: kind(rng), a, b });
         }
-    } else if shape < 95 {
+    } else if shape < 94 {
+        // fanchain: a root fanned over a chain m1 -> m2 -> … -> mK -> t, fan edges added in ascending or
+        // descending order (ascending makes the rank work list revisit the chain once per wave)
+        name = "fanchain";
+        let k = 3 + rng.below((maxn.max(8) - 4) as u64) as usize;
+        add_fns(rng, &mut ops, k + 2, density);
+        let asc = rng.chance(70);
+        let chain_first = rng.chance(50);
+        let mut chain = vec![];
+        for i in 1..=k {
+            chain.push(Op::Edge { k: kind(rng), a: i, b: i + 1 });
+        }
+        let mut fan = vec![];
+        for i in 1..=k {
+            fan.push(Op::Edge { k: kind(rng), a: 0, b: i });
+        }
+        if !asc {
+            fan.reverse();
+        }
+        if chain_first {
+            ops.extend(chain);
+            ops.extend(fan);
+        } else {
+            ops.extend(fan);
+            ops.extend(chain);
+        }
+    } else if shape < 96 {
         // fan: source -> k mids -> sink, k larger than any small constant channel capacity
         name = "fan";
         let k = *rng.pick(&[5usize, 17, 33, 65, 100, 130, 130, 270]);
@@ -308,7 +334,7 @@ fn gen_runcfg(rng: &mut Rng, stream: bool, shared_only: bool) -> RunCfg {
         }
         break;
     }
-    let mut c = RunCfg { api, rev: false, limit: None, strat: Strat::Non, incl: true };
+    let mut c = RunCfg { api, rev: false, limit: None, strat: Strat::Non, incl: true, ord: rng.below(6) as u8 };
     if c.api.contains("for_each_concurrent") {
         c.limit = *rng.pick(&[None, None, Some(0), Some(1), Some(1), Some(2), Some(3)]);
     }
@@ -668,7 +694,7 @@ fn kpops_main(sizes: &str) {
     let mut lock = stdout.lock();
     for (i, s) in sizes.split(',').enumerate() {
         let n: usize = s.parse().unwrap();
-        for variant in 0..3 {
+        for variant in 0..4 {
             let mut ops = vec![];
             for _ in 0..n {
                 ops.push(Op::Fn { tag: 0, r: vec![], w: vec![] });
@@ -688,6 +714,15 @@ fn kpops_main(sizes: &str) {
                         }
                     }
                 }
+            } else if variant == 3 {
+                // root fanned over a chain, fan edges in ascending order: the fixed rank loop needs about
+                // n^2/2 pops here (still within the n^2 bound); a visit budget of nodes + edges does not do
+                for a in 1..n.saturating_sub(1) {
+                    ops.push(Op::Edge { k: K::Logic, a, b: a + 1 });
+                }
+                for b in 1..n.saturating_sub(1) {
+                    ops.push(Op::Edge { k: K::Logic, a: 0, b });
+                }
             } else {
                 // dense part next to an unconnected chain of the same depth: the augmenter has to
                 // answer many "no path" queries across the two parts
@@ -702,7 +737,7 @@ fn kpops_main(sizes: &str) {
                 }
             }
             let mut out = vec![];
-            out.push(format!("case k{}_{} feat={} shape={}", i, variant, FEAT, ["kcomplete", "klayered", "kdense+chain"][variant]));
+            out.push(format!("case k{}_{} feat={} shape={}", i, variant, FEAT, ["kcomplete", "klayered", "kdense+chain", "kfanchain"][variant]));
             for op in &ops {
                 out.push(op.line());
             }
@@ -841,14 +876,14 @@ fn enum_cfgs(stream: bool) -> Vec<RunCfg> {
     };
     let apis = if stream { stream_apis() } else { fut_apis() };
     for api in apis {
-        let base = RunCfg { api: api.to_string(), rev: false, limit: None, strat: Strat::Non, incl: true };
+        let base = RunCfg { api: api.to_string(), rev: false, limit: None, strat: Strat::Non, incl: true, ord: 0 };
         let limits: Vec<Option<usize>> = if api.contains("for_each_concurrent") { vec![None, Some(1), Some(2)] } else { vec![None] };
         for lim in limits {
             if base.has_opts() {
                 for rev in [false, true] {
                     let cs: Vec<(Strat, bool)> = if api == "stream_with" { vec![(Strat::Non, true)] } else { combos.clone() };
                     for (st, incl) in cs {
-                        v.push(RunCfg { rev, limit: lim, strat: st, incl, ..base.clone() });
+                        v.push(RunCfg { rev, limit: lim, strat: st, incl, ord: (v.len() % 6) as u8, ..base.clone() });
                     }
                 }
             } else {
